@@ -15,7 +15,8 @@ from .c01 import fingerprint
 ID = "C07"
 LEVEL = "exploration"
 RULE = ("seeded workloads: 2-8 callers, 1-3 origins, max_connections 1-2, callers that hold responses for virtual "
-        "think time, pool timeouts shorter/longer than the holders, cancellations while queued, the "
+        "think time, pool timeouts shorter/longer than the holders, cancellations while queued (at the caller's own k-th suspension point, and from outside: another caller cancels "
+        "it - task.cancel() / cancel scope - in the very step in which its own request ended), caller-side upload bugs, the "
         "'maybe HTTP/2 turned out HTTP/1.1' re-queue, HTTP/2 stream-slot waits; O1 evaluated at every instant at which "
         "the event loop / trio scheduler has nothing runnable; distinct+non-trivial = new interleaving fingerprint "
         "with at least one quiescent instant that had queued requests")
@@ -71,7 +72,7 @@ class Quiescence:
 def run_case(case):
     viol = []
     cnt = {"workloads": 0, "quiescent_instants": 0, "quiescent_with_queue": 0, "oracle_o1": 0, "oracle_o2": 0,
-           "callers_terminated": 0, "pool_timeouts": 0, "requests": 0}
+           "callers_terminated": 0, "pool_timeouts": 0, "requests": 0, "external_cancellations": 0}
     sigs = set()
     sample = {}
 
@@ -96,6 +97,7 @@ def run_case(case):
             cur["q"] = None
             cnt["workloads"] += 1
             cnt["requests"] += len(wl.records)
+            cnt["external_cancellations"] += wl.snipes_fired
             cnt["quiescent_instants"] += q.instants
             cnt["quiescent_with_queue"] += q.with_queue
             cnt["oracle_o1"] += q.with_queue
